@@ -40,11 +40,15 @@ def run(out, tier, seed):
                     n += 1
         if tier == "quick":
             sink_cfg("MC_Lexer_q3")
+            for focus in ("MC_Lexer_num5", "MC_Lexer_str5", "MC_Lexer_ws5", "MC_Lexer_ops4"):
+                sink_cfg(focus)
             sink_cfg("MC_Lexer_sim", simulate=60, depth=45, seed=seed, minlen=8, cap=1500)
         else:
             sink_cfg("MC_Lexer_t3")
             sink_cfg("MC_Lexer_t4")
             sink_cfg("MC_Lexer_t5")
+            for focus in ("MC_Lexer_num5", "MC_Lexer_str5", "MC_Lexer_ws5", "MC_Lexer_ops4"):
+                sink_cfg(focus)
             sink_cfg("MC_Lexer_sim", simulate=800, depth=45, seed=seed, minlen=8, cap=30000)
     obs = os.path.join(wd, "obs.ndjson")
     st = vlib.run_workers("lex", cases, n, obs, timeout=15)
